@@ -26,6 +26,31 @@ iteration.  `Out` = what the application's observation is told.  The task is can
 application cancels its observation (`obs.on_cancel(subtask.cancel)`, `protocol.py:1123`): from
 inside a callback (`cancels`) that is state `cancelled`, in which the loop does nothing more.
 
+Round 4.  The loop runs in a task of its own that `BlockwiseRequest._run` creates once the response
+is complete (`protocol.py:1101-1138`):
+
+    obs = weak_observation()
+    if obs is None: lower_observation.cancel(); return
+    subtask = asyncio.create_task(cls._run_observation(...))
+    obs.on_cancel(subtask.cancel)          # called at once when obs is cancelled already
+    try: await subtask
+    finally:
+        if not lower_observation.cancelled: lower_observation.cancel()
+
+`Start` says how `_run` finds the application's observation at that point.  A task cancelled before
+it took its first step executes none of its code (asyncio; exercised by the level (d)
+correspondence, not proved): that is `cancelledEarly` — the application called
+`request.observation.cancel()` before the first response, while the body of the first response was
+fetched, or right after `await request.response` returned (the waiter of the response future runs
+before the new task) — and the loop then starts in state `cancelled`.  `LowerEv.cancel` is the same
+call while the loop waits for the next item.  `lowerGivenUp` says whether
+`lower_observation.cancel()` has been reached — by the `finally` of `_run_observation`
+(`protocol.py:1165-1170`) when the task ran, by the `finally` around `await subtask` (the `fix:`
+commit "an observation cancelled before its block-wise runner starts gives up its token") when it
+did not, by the `obs is None` branch —: from then on the lower runner is in `appCancelled` /
+`ended` (`Observe/Client.lean`), withdraws from the pipe at its next event and the token manager
+forgets the token (`C07_nothing_after_app_cancel`, `C07_joint_end_retires_token`).
+
 Not modelled: the fetch itself (`_complete_by_requesting_block2`: C05), exceptions of a fetch that
 are no `error.Error` (they end the observation like a network error: `except Exception`), garbage
 collection of the application's observation (cancels the task).
@@ -46,6 +71,8 @@ inductive LowerEv (α : Type)
   | stop                                        -- `StopAsyncIteration`: the lower observation ended with
                                                 -- `NotObservable` / `ObservationCancelled`
   | raise (k : Nat)                             -- the lower iteration raises (transport failure, shutdown)
+  | cancel                                      -- the application calls `observation.cancel()` while the loop
+                                                -- waits for the next item: `subtask.cancel()`
 deriving DecidableEq, Repr
 
 inductive Out (α : Type)
@@ -66,6 +93,7 @@ def step {α : Type} : St → LowerEv α → St × List (Out α)
   | .running, .item _ (.network k) _ => (.ended, [.errback (.transport k)])
   | .running, .stop => (.ended, [.errback .observationCancelled])
   | .running, .raise k => (.ended, [.errback (.transport k)])
+  | .running, .cancel => (.cancelled, [])
   | s, _ => (s, [])
 
 def run {α : Type} (s : St) : List (LowerEv α) → St × List (Out α)
@@ -76,5 +104,26 @@ def run {α : Type} (s : St) : List (LowerEv α) → St × List (Out α)
     (b.1, a.2 ++ b.2)
 
 def outs {α : Type} (es : List (LowerEv α)) : List (Out α) := (run .running es).2
+
+/-- how `_run` finds the application's observation when it hands over to the loop -/
+inductive Start
+  | alive             -- registered and not cancelled: the loop's task runs
+  | cancelledEarly    -- cancelled by the application before the task took its first step
+  | collected         -- the application dropped the request: `weak_observation()` is `None`
+deriving DecidableEq, Repr
+
+/-- the state the loop is in when its events begin -/
+def start : Start → St
+  | .alive => .running
+  | .cancelledEarly => .cancelled
+  | .collected => .cancelled
+
+/-- has `lower_observation.cancel()` been reached (see the module text) -/
+def lowerGivenUp : St → Bool
+  | .running => false
+  | .ended => true
+  | .cancelled => true
+
+def runFrom {α : Type} (b : Start) (es : List (LowerEv α)) : St × List (Out α) := run (start b) es
 
 end Aiocoap.Observe.Upper
